@@ -4,6 +4,10 @@ import json, os
 HERE = os.path.dirname(os.path.dirname(os.path.abspath(__file__)))
 
 CHECKS = {
+ 'C19': dict(level='model_checking', design='2/C19',
+   technique='deviation-bounded stateless DFS over packet delivery orders for (stream x chunking x read-call menu) on the real stream API with a splitter reference model; exhaustive enumeration of server event orders from the independent peer for exit-status/output completeness; drain under all delivery orders and connection loss at every step',
+   text='Server writes a stream; the client reads it with one of 15 call menus while the transport chunks it at 1,2,3,5 or 32768 bytes and packets are delivered in every order within the bound: every result must equal the splitter model of the whole stream (exact n, up to and including the first separator match for single, multiple and regex separators, one line, everything to EOF, IncompleteReadError partial/expected). refpeer sends stdout/stderr data, EOF and exit-status or exit-signal in all 184 permitted orders before CLOSE: the reported status comes with complete output. Nine redirection kinds copy all data then EOF as requested. drain() never returns while more than the high-water mark is buffered and fails or returns when the connection is lost at any step.',
+   note='OS-pipe redirection targets are not covered (no pipe support in the virtual loop); bound 1 in quick.'),
  'C18': dict(level='exploration', design='2/C18',
    technique='exhaustive enumeration of configuration programs (sequences of conditional blocks over a header alphabet x option-set variants x targets) resolved by the real SSHClientConfig and compared with what OpenSSH `ssh -G` resolves for the same file; exhaustive template x user-name enumeration for the server-side %u expansion',
    text='Every sequence of 1-2 (thorough 3) blocks over 18 Host/Match headers, each block assigning every option under test a distinct value so the result identifies which blocks applied and in which order, in three variants (plain; = and quoted spellings, Hostname with %h, IdentityFile tokens %h %r %p %n %% %d %u, accumulating SendEnv/SetEnv; Include of existing, nested and non-matching files), for 12 targets: User, Hostname, Port, Compression, ProxyJump, IdentityFile list, SendEnv and SetEnv must equal ssh -G. Server: 7 AuthorizedKeysFile templates x 31 user names: IllegalUserName, or the name inserted as inert text inside single path components.',
